@@ -51,6 +51,16 @@ CHECKS = {
         "Known finding buffered-nack-evicted (nackWriter re-requests packets that were received but evicted from the cache).",
    technique="Lean 4 invariant proofs (bitmap, counters) + differential check incl. end-to-end readLoop over in-process WebRTC",
    ref="DESIGN.md section 5 C06"),
+ "C08": dict(engine="auth",
+   text="Lean 4 proofs over the executable model of the password login (acceptance iff valid username and the governing entry's password matches, named entry "
+        "shadows wildcard, empty type / null password never matches, every refusal kind, granted list = role expansion with the record/token rules proved for the real "
+        "role table, raw lists unchanged, refusals leave the member list alone, obsolete-field upgrade, username rule, makePassword/Match round trip under explicit "
+        "assumptions on the hash primitives), tied to the Go code by a differential run on generated descriptions, credentials, joins and moderation histories with "
+        "the real bcrypt/pbkdf2 and the real galenectl makePassword",
+   note=TB + "Hash functions are parameters: injectivity of pbkdf2/bcrypt is assumed on a stated password domain (NUL-free, ≤ 64 resp. 72 bytes for the real libraries); "
+        "aliasing of permission slices is outside the (immutable) model and is detected by the oracle on the real code (moderation interleaved with logins).",
+   technique="Lean 4 proof (decision logic of password login and permission expansion) + differential check with aliasing-sensitive oracle",
+   ref="DESIGN.md section 5 C08"),
  "C09": dict(engine="token",
    text="Lean 4 characterisation theorems (scope of Stateful.match and matchGroup on whole path components for all strings; validity window incl. boundary instants; "
         "key selection/kty-alg table/signature/expiry for parseJWT with cryptography as a parameter; audience host+group; username rules of GetPermission; global "
